@@ -357,9 +357,11 @@ impl<'a> Env<'a> {
         // state shared with the closure
         let st = Mutex::new((std::mem::take(&mut self.tally), None::<(Vec<u64>, Fail)>, Vec::<(Vec<u64>, Fail)>::new()));
         let known = &self.args.known;
+        let sub_name: &str = self.sub;
         let res = runner.run(&strat, |words| {
             let mut g = st.lock().unwrap();
             let (tally, first, _tol) = &mut *g;
+            set_crumb(sub_name, &words);
             let r = std::panic::catch_unwind(std::panic::AssertUnwindSafe(|| check(&words, tally)));
             let r = match r {
                 Ok(r) => r,
@@ -415,6 +417,7 @@ impl<'a> Env<'a> {
         if !self.failures.is_empty() {
             return false;
         }
+        set_crumb(self.sub, words);
         match check(words, &mut self.tally) {
             Ok(()) => true,
             Err(f) => {
@@ -477,9 +480,41 @@ pub fn silence_panics() {
     std::panic::set_hook(Box::new(|_| {}));
 }
 
+// ---- breadcrumb for hard crashes: if safe glam code makes the process die with SIGSEGV / SIGBUS / SIGILL / SIGFPE,
+// the handler prints which sub-check and which case words were being evaluated on the faulting thread, so that the
+// driver can still write a replay file.
+thread_local! {
+    static CRUMB: std::cell::Cell<(*const u8, usize, *const u64, usize)> = const { std::cell::Cell::new((std::ptr::null(), 0, std::ptr::null(), 0)) };
+}
+#[inline]
+pub fn set_crumb(sub: &str, words: &[u64]) {
+    CRUMB.with(|c| c.set((sub.as_ptr(), sub.len(), words.as_ptr(), words.len())));
+}
+extern "C" fn crash_handler(sig: i32) {
+    // best effort: formatting allocates, which is not async-signal-safe, but the process is about to die anyway
+    let (sp, sl, wp, wl) = CRUMB.with(|c| c.get());
+    let sub = if sp.is_null() { "" } else { unsafe { std::str::from_utf8_unchecked(std::slice::from_raw_parts(sp, sl)) } };
+    let words: &[u64] = if wp.is_null() { &[] } else { unsafe { std::slice::from_raw_parts(wp, wl) } };
+    let msg = format!("\nCRASH-CRUMB {{\"signal\": {}, \"sub\": {:?}, \"words\": {:?}}}\n", sig, sub, hexwords(words));
+    unsafe {
+        libc::write(2, msg.as_ptr() as *const libc::c_void, msg.len());
+        libc::_exit(128 + sig);
+    }
+}
+pub fn install_crash_handler() {
+    unsafe {
+        for s in [libc::SIGSEGV, libc::SIGBUS, libc::SIGILL, libc::SIGFPE] {
+            libc::signal(s, crash_handler as usize);
+        }
+    }
+}
+
 /// Entry point of every property binary. Returns the process exit code.
 pub fn main_with(property: &str, rule: &str, args: &Args, subs: Vec<SubCheck>) -> i32 {
     silence_panics();
+    if std::env::var("VERIF_NO_CRASH_HANDLER").is_err() {
+        install_crash_handler();
+    }
     let t0 = std::time::Instant::now();
     if let Some(path) = &args.replay {
         return replay(property, args, path, &subs);
@@ -602,6 +637,7 @@ fn replay(property: &str, args: &Args, path: &str, subs: &[SubCheck]) -> i32 {
         return 3;
     };
     let mut t = Tally::default();
+    set_crumb(&s.name, &words);
     let r = std::panic::catch_unwind(std::panic::AssertUnwindSafe(|| (s.check)(&words, &mut t)));
     let r = match r {
         Ok(r) => r,
